@@ -11,7 +11,8 @@ package hx
 // and the Lean MODEL (Grip.C05.intercept over the regenerated AuthTables).  The Authenticate and
 // Access implementations are the harness's own (via the verif hook accounts.NewConfigVerif) so
 // that every Enforce(user, graph, op) call is recorded; the service implementation is a recorder.
-// (server.Serve itself is not started: its wiring is covered by the translator's Serve table only.)
+// server.Serve itself is started by op "serve" (c05_serve.go) and probed over HTTP: its gateway
+// wiring is covered by the translator's Serve table AND by that run.
 
 import (
 	"context"
@@ -608,6 +609,9 @@ func c05Exec(op map[string]interface{}) (obs map[string]interface{}) {
 			obs = map[string]interface{}{"err": "panic", "handled": nil, "log": []interface{}{}, "why": fmt.Sprint(p)}
 		}
 	}()
+	if k, _ := op["op"].(string); k == "serve" {
+		return c05ServeExec(op) // the real server.Serve over HTTP (c05_serve.go)
+	}
 	if k, _ := op["op"].(string); k != "call" && k != "" {
 		return c05AccessExec(op) // ops of mode "access"
 	}
@@ -722,6 +726,18 @@ func c05Gen(r *Run) {
 			out = append(out, map[string]interface{}{"ty": m.In, "graph": g, "tag": fmt.Sprintf("v%d", i)})
 		}
 		return out
+	}
+	// --- the real server.Serve over HTTP, plugins disabled and enabled
+	for _, plugins := range []bool{false, true} {
+		op := map[string]interface{}{"op": "serve", "plugins": plugins, "probes": c05ServeProbes()}
+		obs := c05Exec(op)
+		r.Emit(op, obs)
+		r.Count("serve")
+		if ps, ok := obs["probes"].([]interface{}); ok {
+			for _, p := range ps {
+				r.NonTrivial(fmt.Sprint("serve|", plugins, "|", p))
+			}
+		}
 	}
 	// --- the full grid: every method × transport × credential state × policy outcome
 	for _, m := range methods {
